@@ -30,8 +30,8 @@ CLAIMS = {
  "C12": ("Lean theorems: password_to_master hashes exactly the first 2^20 octets of the endlessly repeated password (Spec.passwordToKey, for every non-empty password incl. lengths not dividing 2^20), localisation is H(Ku || engineID || Ku), as_key_type dispatches on the two high bits for every code < 64 x 4 and refuses unknown codes, empty passwords and wrong-size localized keys with InvalidKey / InvalidVersion and never panics; the privacy key is localized with the auth digest; the Python key classes (user.py, modelled in Model/User.lean) hand the socket master / localized keys of exactly the digest size and codes that carry digest and key type (user_keys_sized, user_codes). Streams against hashlib (itself validated against the RFC's loop), Python API, user.py, sessions per key type, constructor on malformed material.",
          TB + "MD5 / SHA-1 are parameters; a wrong-size MASTER key is hashed as given by the Rust layer; the public Python API never passes one (user_keys_sized) — DESIGN.md §11.2.",
          "Lean 4 proof (refinement to the RFC 3414 A.2 specification, totality) + differential correspondence + e2e oracle", "§7 C12"),
- "C13": ("Lean theorems about unwrap_pdu and set_keys for every session state and incoming message: an empty engine id is replaced by the one of the first accepted message and never changes afterwards; boots and time are those of the most recent accepted message and untouched by skipped ones; every request is stamped with the stored engine id (USM and context), boots, time and user; set_keys localizes to the stored engine id; probe = empty reportable GET. E2E: the real sync and async SnmpSession with and without engine id against an agent whose clock moves between replies.",
-         TB + "the Python refresh() sequencing is exercised, not modelled.",
+ "C13": ("Lean theorems about unwrap_pdu and set_keys for every session state and incoming message: an empty engine id is replaced by the one of the first accepted message and never changes afterwards; boots and time are those of the most recent accepted message and untouched by skipped ones; every request is stamped with the stored engine id (USM and context), boots, time and user; set_keys localizes to the stored engine id; probe = empty reportable GET; the clients' refresh() state machine (Py.refresh): an unanswered discovery probe leaves the deferred user in place, set_keys happens exactly after an answered discovery probe, a session with a configured engine id never re-keys. E2E: the real sync and async SnmpSession with and without engine id against an agent whose clock moves between replies.",
+         TB + "asyncio and the sockets are not modelled; the refresh() state machine is modelled and compared with both real clients.",
          "Lean 4 proof (state-machine invariants) + e2e oracle (sync + async clients) + correspondence", "§7 C13"),
  "C14": ("Lean theorems: every encrypt advances the per-key counter by exactly one modulo 2^32 (DES) / 2^64 (AES), also when it fails; the transmitted msgPrivacyParameters are boots||counter resp. the 64-bit counter (8 octets, injective in the counter), hence (sequence_distinct) over ANY sequence of encrypt calls of one key installation — any requests, any boots / time, failed calls in between — two messages fewer than 2^32 / 2^64 calls apart carry different msgPrivacyParameters; the priv flag is set iff the session has a privacy key; everything outside msgData depends only on the ciphertext's length (frame_request_independent). E2E: salt sequences of sessions and bare cipher objects, plaintext-window search outside the ciphertext.",
          TB + "ciphertext opacity is the cipher's property, not proved; rand seeds the counter (any seed).",
